@@ -1,12 +1,101 @@
+(* C03 - property theorems only; each is closed by a lemma of Lemmas*.v.
+   x ranges over ALL described datatype trees (unbounded depth and width), v / prev over all Python values.
+     wfx x         the tree is constructible: every property value is a fixed point of the datatype frappy declares for
+                   that property, limits ordered, optional members are members (Lemmas.v)
+     lossless x    excludes exactly the two lossy shapes listed as findings (blob maxbytes = 0 / scaled scale =
+                   float_info.min: a mandatory property equal to its datatype default is not exported; string with
+                   minchars > 0 and unlimited maxchars)
+     scaled_free x PARTIAL: the tree-level proofs do not cover ScaledInteger leaves (their rebuild is covered by the
+                   correspondence and the direct oracle only)
+     norm p x      x with enums named after the parameter, TextType as StringType, client flag set *)
+From Coq Require Import String Ascii.
 From Coq Require Import ZArith NArith Bool List.
 Import ListNotations.
-Require Import FV.Gen.C03 FV.C03.Model.
+Require Import FV.Base.Util FV.Base.F64 FV.Base.PyVal FV.C01.Model FV.C01.Lemmas FV.Gen.C03 FV.C03.Model FV.C03.Lemmas
+  FV.C03.LemmasTree FV.C03.LemmasCompat FV.C03.Refuted.
+
+(* obligations on the facts regenerated from /repo (Gen/C03.v): the rebuild table, get_datatype, exportProperties,
+   the property declarations and every export_datatype / copy / compatible body have the shape the model was written
+   from; the table itself (parameters, defaults, must-ignore, forwarding) is what the model executes *)
 Theorem C03_source_facts :
   dt_bodies_as_modelled = true /\ get_datatype_none_passthrough = true /\ get_datatype_old_syntax = true /\
   get_datatype_sets_client = true /\ get_datatype_wraps_exceptions = true /\ export_nondefault_only = true /\
   get_info_shape = true /\ prop_defaults_as_modelled = true /\ export_bodies_as_modelled = true /\
   scaled_export_properties_as_modelled = true /\ copy_bodies_as_modelled = true /\
   copy_overrides_only_where_modelled = true /\ compatible_bodies_as_modelled = true /\
-  struct_sets_no_client_in_init = true.
+  struct_sets_no_client_in_init = true /\
+  forallb (fun ty => tbl_kwds ty) (map fst dt_params) = true /\
+  forallb (fun q : str * str => tbl_forwarded (fst q) (snd q))
+    [($"int", $"min"); ($"int", $"max"); ($"double", $"min"); ($"double", $"max"); ($"scaled", $"scale");
+     ($"blob", $"minbytes"); ($"blob", $"maxbytes"); ($"string", $"minchars"); ($"string", $"maxchars");
+     ($"string", $"isUTF8"); ($"array", $"minlen"); ($"array", $"maxlen"); ($"enum", $"members")] = true.
 Proof. repeat split; reflexivity. Qed.
 Print Assumptions C03_source_facts.
+
+(* FULL STATEMENT (not provable on the pinned tree, see Refuted.v): for every constructible tree
+   get_datatype(export_datatype(x)) is norm p x.  Proved: the same with the findings and scaled leaves excluded. *)
+Theorem C03_rebuild_except_lossy_shapes_partial : forall p x j fuel,
+  wfx x -> lossless x -> scaled_free x -> xt_export x = Ok j -> depth x <= fuel ->
+  get_dt fuel p j = Ok (Some (norm p x)).
+Proof. intros p x j fuel HW HL HS E HD. exact (rebuild_ok p x HW HL HS j E fuel HD). Qed.
+Print Assumptions C03_rebuild_except_lossy_shapes_partial.
+
+(* the rebuilt type has the same datainfo again ... *)
+Theorem C03_same_datainfo_again : forall p x, xt_export (norm p x) = xt_export x.
+Proof. intros; apply export_norm. Qed.
+Print Assumptions C03_same_datainfo_again.
+
+(* ... and accepts and rejects the same values with equal results (validate, any previous value) *)
+Theorem C03_rebuilt_validates_same : forall p x v prev,
+  dt_validate (erase (norm p x)) v prev = dt_validate (erase x) v prev.
+Proof. intros; apply validate_norm. Qed.
+Print Assumptions C03_rebuilt_validates_same.
+
+(* copy(): the same description with no client flag; for a tree built by the constructors the very same description,
+   hence the same datainfo and the same validation.  (That no mutable state is shared is a heap property: checked on
+   the implementation by identity traversal + mutation of the copy, see harness/props/C03.py.) *)
+Theorem C03_copy_equiv_except_lossy_shapes_partial : forall x,
+  wfx x -> lossless x -> scaled_free x ->
+  xt_copy x = Ok (unclient x) /\ (server_side x -> unclient x = x) /\
+  xt_export (unclient x) = xt_export x /\
+  forall v prev, dt_validate (erase (unclient x)) v prev = dt_validate (erase x) v prev.
+Proof.
+  intros x HW HL HS. split; [apply copy_ok; assumption|]. split; [apply unclient_server|].
+  split; [apply export_unclient|intros; apply validate_unclient].
+Qed.
+Print Assumptions C03_copy_equiv_except_lossy_shapes_partial.
+
+(* compatible() on the same-kind fragment (int, bool, string/text, blob, arrays of these): passes only if every
+   value of the first type's value set is in the second type's value set ... *)
+Theorem C03_compat_sound_same_kind_partial : forall a b,
+  same_kind a b -> compat a b = Ok tt -> forall v, in_setb (erase a) v = true -> in_setb (erase b) v = true.
+Proof. exact compat_sound_same_kind. Qed.
+Print Assumptions C03_compat_sound_same_kind_partial.
+
+(* ... and the verdict is exactly "limits nested": it does pass for equal or wider limits *)
+Theorem C03_compat_complete_same_kind_partial : forall a b,
+  wfx a -> same_kind a b -> (compat a b = Ok tt <-> widens a b).
+Proof.
+  intros a b HW HK. split; [apply compat_only_if_nested; assumption|apply compat_if_nested; assumption].
+Qed.
+Print Assumptions C03_compat_complete_same_kind_partial.
+
+(* non-vacuity: the hypotheses hold for ordinary types *)
+Definition sample : xt :=
+  XStruct [($"a", XFloat fzero (fmk 10 0) fzero rel0 $"$/min" $"%.3f");
+           ($"b", XArray (XEnum $"e" [($"off", 0%Z); ($"on", 1%Z)]) 0 3);
+           ($"c", XTuple [XInt 0 5; XString 0 UNL true false; XBlob 0 255; XBool])] [$"b"] false.
+Example C03_sample_hypotheses : wfx sample /\ lossless sample /\ scaled_free sample /\ server_side sample.
+Proof.
+  unfold sample. cbn [wfx lossless scaled_free server_side snd].
+  repeat split; try discriminate; try (left; reflexivity); try (apply fix_by_bool; vm_compute; reflexivity);
+    try (vm_compute; reflexivity); try (intros; discriminate).
+Qed.
+Example C03_sample_rebuilds : exists j, xt_export sample = Ok j /\ get_dt 3 $"p" j = Ok (Some (norm $"p" sample)).
+Proof.
+  destruct C03_sample_hypotheses as (HW & HL & HS & _).
+  eexists. split; [reflexivity|]. apply C03_rebuild_except_lossy_shapes_partial; try assumption; [reflexivity|cbn; auto].
+Qed.
+Example C03_compat_example :
+  compat (XArray (XInt 0 5) 0 3) (XArray (XInt 0 10) 0 5) = Ok tt /\ is_err (compat (XArray (XInt 0 5) 0 3) (XArray (XInt 1 10) 0 5)) = true.
+Proof. split; vm_compute; reflexivity. Qed.
